@@ -307,6 +307,45 @@ async fn ask_reply_integrity() -> Out {
     Out { name: "ask_reply_integrity", ok: ok.is_ok(), detail: ok.err().unwrap_or_default(), trace: tr }
 }
 
+/// ask_join: the reply is a JoinHandle; the result of THAT task is what ask_join returns, even if the actor ends meanwhile
+struct JoinMsg { gate: Arc<tokio::sync::Semaphore>, fail: bool }
+impl Message<JoinMsg> for Probe {
+    type Reply = tokio::task::JoinHandle<u32>;
+    async fn handle(&mut self, m: JoinMsg, _r: &ActorRef<Self>) -> tokio::task::JoinHandle<u32> {
+        self.log.lock().unwrap().push("hj".into());
+        tokio::spawn(async move { let _p = m.gate.acquire().await; if m.fail { panic!("task panics (scripted)"); } 42 })
+    }
+}
+async fn ask_join_outlives_actor() -> Out {
+    std::panic::set_hook(Box::new(|_| {}));
+    let mut bad: Vec<String> = Vec::new();
+    let log = new_log();
+    let (r, h) = spawn::<Probe>(args(&log));
+    let gate = Arc::new(tokio::sync::Semaphore::new(0));
+    let (r2, g2) = (r.clone(), gate.clone());
+    let caller = tokio::spawn(async move { r2.ask_join(JoinMsg { gate: g2, fail: false }).await });
+    for _ in 0..500 { if trace(&log).iter().any(|e| e == "hj") { break; } tokio::time::sleep(Duration::from_millis(1)).await; }
+    r.stop().await.unwrap();
+    let _ = join(h).await;
+    tokio::time::sleep(Duration::from_millis(20)).await;
+    gate.add_permits(1);
+    match tokio::time::timeout(Duration::from_secs(5), caller).await {
+        Ok(Ok(Ok(42))) => {}
+        other => bad.push(format!("[C03] ask_join: the handler replied with a JoinHandle, the actor then stopped; the result of that task (42) must still be returned, got {other:?}")),
+    }
+    // a panicking task is reported as Error::Join, an ordinary one as its value
+    let (r3, h3) = spawn::<Probe>(args(&new_log()));
+    let g3 = Arc::new(tokio::sync::Semaphore::new(1));
+    let e = r3.ask_join(JoinMsg { gate: g3.clone(), fail: true }).await;
+    if !matches!(e, Err(rsactor::Error::Join { .. })) { bad.push(format!("[C03] ask_join on a panicking task returned {e:?}, expected Error::Join")); }
+    g3.add_permits(1);
+    let v = r3.ask_join(JoinMsg { gate: g3, fail: false }).await;
+    if !matches!(v, Ok(42)) { bad.push(format!("[C03] ask_join returned {v:?}, expected Ok(42)")); }
+    r3.stop().await.unwrap(); let _ = join(h3).await;
+    let _ = std::panic::take_hook();
+    Out { name: "ask_join_outlives_actor", ok: bad.is_empty(), detail: bad.join("; "), trace: trace(&log) }
+}
+
 async fn erased_handles() -> Out {
     use rsactor::{ActorControl, AskHandler, TellHandler, WeakActorControl};
     let log = new_log();
@@ -463,7 +502,7 @@ fn blocking_timeout() -> Out {
     let c1 = dl();
     let r4 = r.clone();
     let e = std::thread::spawn(move || r4.blocking_tell(Msg { id: 6, sleep_ms: 0 }, Some(Duration::from_millis(500)))).join().unwrap();
-    if !matches!(e, Err(rsactor::Error::Send { .. })) { bad.push(format!("[C17] blocking_tell(Some) to a stopped actor returned {e:?}")); }
+    if !matches!(e, Err(rsactor::Error::Send { .. })) { bad.push(format!("[C17,C10] blocking_tell(Some) to a stopped actor returned {e:?} (another outcome masked by the timeout path)")); }
     if dl_enabled() && dl() != c1 + 1 { bad.push(format!("[C13,C17] blocking_tell(Some) to a stopped actor recorded {} dead letters, expected 1", dl() - c1)); }
     let tr = trace(&log);
     if handled(&tr) != vec![1, 2, 7, 5] { bad.push(format!("[C01,C17,C10] a blocking send that reported Timeout was delivered anyway (or an accepted one was lost): handled {:?}, expected [1, 2, 7, 5]", handled(&tr))); }
@@ -520,6 +559,7 @@ fn main() {
     if want("timeout_full_mailbox") { emit(rt().block_on(timeout_full_mailbox())); }
     if want("capacity_bound") { emit(rt().block_on(capacity_bound(3))); emit(rt().block_on(capacity_bound(1))); }
     if want("ask_reply_integrity") { emit(rt().block_on(ask_reply_integrity())); }
+    if want("ask_join_outlives_actor") { emit(rt().block_on(ask_join_outlives_actor())); }
     if want("erased_handles") { emit(rt().block_on(erased_handles())); }
     if want("identity_and_liveness") { emit(rt().block_on(identity_and_liveness())); }
     if want("hook_panics") { emit(rt().block_on(hook_panics())); }
